@@ -250,7 +250,7 @@ PROPS = {
     },
     "C13": {
         "module": "ZenonVerif.Props.C13",
-        "streams": [S("codec", 4000, 100000), S("calldata", 6000, 300000, driver=False)],
+        "streams": [S("codec", 4000, 100000), S("calldata", 6000, 300000, driver=False), S("variants", 40, 1500, driver=False)],
         "rule": "codec stream: generated account blocks of all 5 block types (plus out-of-range types), up to 3 levels of "
                 "nested descendants, amounts nil/0/1/2^255-1/2^255/2^256-1/2^256/33+ bytes/negative, uint64 fields on varint "
                 "boundaries, data nil/empty/127/128/16383/16384/20000 bytes, and momentums with 0..101 content entries; "
